@@ -97,6 +97,24 @@ def build_vh(race=False):
     return out
 
 
+def build_p11so():
+    """Compile the PKCS#11 wire module (harness/fakep11c/shim.c) against the Cryptoki headers shipped with miekg/pkcs11."""
+    os.makedirs(BUILD, exist_ok=True)
+    out = os.path.join(BUILD, "libfakep11.so")
+    src = os.path.join(HARNESS, "fakep11c", "shim.c")
+    if os.path.exists(out) and os.path.getmtime(out) >= os.path.getmtime(src):
+        return out
+    r = subprocess.run(["go", "list", "-m", "-f", "{{.Dir}}", "github.com/miekg/pkcs11"], cwd=REPO, env=GOENV, capture_output=True, text=True)
+    inc = r.stdout.strip()
+    if r.returncode != 0 or not os.path.exists(os.path.join(inc, "pkcs11.h")):
+        raise NoVerdict("cannot locate the Cryptoki headers of github.com/miekg/pkcs11 in the module cache: " + r.stderr[-500:])
+    r = subprocess.run(["gcc", "-shared", "-fPIC", "-O1", "-I" + inc, "-o", out, src, "-lpthread"], capture_output=True, text=True)
+    if r.returncode != 0:
+        log(r.stderr[-3000:])
+        raise NoVerdict("the PKCS#11 wire module does not compile")
+    return out
+
+
 def build_relic(tags="verif", race=False):
     """Build the real relic binary from the working tree."""
     os.makedirs(BUILD, exist_ok=True)
